@@ -481,7 +481,7 @@ func ruleC15RemovalNotifies(c *Ctx) {
 			}
 			if _, fld, isF := fieldAccess(st.Addr); isF && fld == "byKey" && rootFunc(f).Name() != "Build" {
 				n++
-				okc := f.Name() == "Close" && guardedBy(i, false, sizePositive)
+				okc := f.Name() == "Close" && afterDrain(i)
 				c.check(okc, trimPkgDirs(shortName(f))+"/byKey=", u.ipos(i), "map dropped only in Close after the drain loop", "the whole map is replaced/dropped outside Close's drained state: the entries in it are never notified")
 			}
 		})
